@@ -1,5 +1,4 @@
 SPECIFICATION GSpec
-CONSTANTS MODES = {"head", "body", "rec", "two", "disj"}
 CHECK_DEADLOCK FALSE
 INVARIANT Emit
 CONSTRAINT Bound
